@@ -41,7 +41,7 @@ def check(ctx):
                 seen.add(id(e['node']))
                 v = e['value']
                 gs = ({v.geo} if v is not None and v.geo is not None else set()) | (set(v.geo_conflict) if v is not None and v.geo_conflict else set())
-                ok = bool(gs) and all(g[0] == 'FRAC' and g[1] in ('W', 'C') for g in gs)
+                ok = (bool(gs) and all(g[0] == 'FRAC' and g[1] in ('W', 'C') for g in gs)) if gs else None  # unknown kind: undecided
                 ctx.ob('R4', e['where'], e['node'], ok, 'storage of a freshly built position-mode trajectory' if ok else
                        'raw .coords is read: after any query that switched the trajectory to displacement storage (distances, metrics) the '
                        'distances are measured to displacement vectors instead of positions')
